@@ -119,8 +119,11 @@ PROPS = {
         "buffer, fresh identifier, sweep of expired farms, live farms below the limit at creation), exact funds and fee routing "
         "(fee to collector, overpayment refunded) outside the zero-fee/other-denom class (known finding F-zero-fee); expansion "
         "(owner only, before end/expiry, attached = declared, multiple of rate, end += amount/rate); close (farm owner or contract "
-        "owner, refund of exactly amount - claimed to the farm's owner only). The global limit invariant (#unexpired <= max) is "
-        "proved only at each creation, not as an invariant over histories, and fails for max > 100 (F-clamp) — partial."),
+        "owner, refund of exactly amount - claimed to the farm's owner only). THE LIMIT OVER ALL HISTORIES (FarmLimit.v, "
+        "C11_never_more_farms_than_the_limit_in_any_reachable_world): in every world reachable from genesis, for every LP denom, "
+        "#stored farms (hence #unexpired) <= max_concurrent_farms whenever that limit is <= 100 - every farm-manager message from "
+        "every sender preserves it (creation sweeps the expired farms first and demands live < limit; the limit can only be "
+        "raised); for limits > 100 the clause is false (F-clamp, known finding)."),
     "C12": P("Props/C12.v", [("pool-scn", 80, 500), ("probe-scn", 16, 64)],
         "Forward quotes: full proof. Simulation equals the computation an executed Swap uses (same return and fee amounts, hence same "
         "messages); SimulateSwapOperations equals the final amount of ExecuteSwapOperations on routes visiting each pool at most "
